@@ -70,10 +70,14 @@ def run(tier, replay=None):
     for kind in rc.KINDS:
         items, meta = [], []
         for n, (m, pc, idk, expect) in enumerate(classes):
-            idv = 41 + n if idk == "int" else "req-%d" % n
-            body, errmsg, iserr = rc.body_for(m, pc, idv)
-            items.append({"id": "c%d" % n, "body": body, "sse": kind == "sse", "expect_answer": True})
-            meta.append(dict(method=m, pc=pc, expect=expect, reqid=idv, isreq=True, errmsg=errmsg, iserr=iserr, body=body))
+            # thorough: three ids per kind (small, >= 10^6, near 2^53; plain, Unicode, long)
+            idvs = [41 + n] if idk == "int" else ["req-%d" % n]
+            if tier == "thorough":
+                idvs += [1000000 + n, 9007199254740000 + n] if idk == "int" else ["é-😀-%d" % n, "x" * 300 + str(n)]
+            for v, idv in enumerate(idvs):
+                body, errmsg, iserr = rc.body_for(m, pc, idv)
+                items.append({"id": "c%d_%d" % (n, v), "body": body, "sse": kind == "sse", "expect_answer": True})
+                meta.append(dict(method=m, pc=pc, expect=expect, reqid=idv, isreq=True, errmsg=errmsg, iserr=iserr, body=body))
         for e in env:
             if e.get("http_only") and kind == "stdio":
                 continue
